@@ -23,6 +23,18 @@ def product_obs(ctx, tdir, ells):
     return obs
 
 
+def accel_obs(ctx, tdir, L=6, ell_max=10000):
+    obs = []
+    for (form, fn) in FUNCS:
+        obs.append(AlgOb("product-all-ell/%s/ell<=%d" % (fn, ell_max), "q120prod.c", "h_prod", "vf.alg.q120:check_product_accel",
+                         params={"form": form, "ell": L, "ell_max": ell_max, "primes": PRIMES30}, defs={"FORM": form, "ELL": L, "FN": fn}, libs=LIBS,
+                         unwind=40 * L + 20, inc=[tdir], family=fn + " (all ell)", bit_flags=["--slice-formula"], timeout=900,
+                         desc="loop summarisation from the VC of the real kernel at %d iterations: accumulators = objects whose SSA versions grow by one "
+                              "iteration's terms; their increments bounded over all operand values; the epilogue re-evaluated on accumulators of up to "
+                              "ell_max increments: nothing wraps or loses bits and the result is congruent to the sum for every ell <= ell_max" % L))
+    return obs
+
+
 CONVN = {0: "b_from_znx64", 1: "c_from_znx64", 2: "c_from_b", 3: "add_bbb", 4: "add_ccc", 5: "b_to_znx128", 6: "znx64_to_b_to_znx128"}
 
 
@@ -41,6 +53,7 @@ def conv_obs(ctx, tdir):
 def obligations(ctx):
     tdir = core.tables_dir(ctx, (), ())
     obs = product_obs(ctx, tdir, [0, 1, 2, 3] if ctx.quick else [0, 1, 2, 3, 4, 8])
+    obs += accel_obs(ctx, tdir)
     obs += conv_obs(ctx, tdir)
     return obs
 
